@@ -756,8 +756,28 @@ func (ex *Executor) exec(st *State, f *Frame, instr ssa.Instruction) ctl {
 		f.Defers = append(f.Defers, d)
 		f.IP++
 	case *ssa.Go:
+		t := st.th()
+		if t.YieldDone {
+			// resumed after letting the new goroutine run first
+			t.YieldDone = false
+			f.IP++
+			break
+		}
+		first := false
+		if st.GoOrder && st.GoForks < 3 {
+			// which of the two runs first is the scheduler's choice: fork on it (decision before any effect)
+			ch := smt.Var(fmt.Sprintf("nd%d_%s", len(st.ND), "gofirst"), smt.Bool)
+			first = ex.branch(st, ch)
+			st.ND = append(st.ND[:len(st.ND):len(st.ND)], NDRec{Kind: "ext-bool", Tag: "new goroutine runs first", T: ch})
+			st.GoForks++
+		}
 		d := ex.prepareCall(st, f, &in.Call)
 		ex.spawn(st, d)
+		if first {
+			t.BlockWhy = "yield"
+			t.BlockKind = "yield"
+			return cBlock
+		}
 		f.IP++
 	case *ssa.Call:
 		d := ex.prepareCall(st, f, &in.Call)
